@@ -346,6 +346,30 @@ impl ASN1Type {
         }
     }
 
+    /// The names of the types whose components `self` includes with `COMPONENTS OF`, at any nesting depth
+    pub fn components_of_references(&self) -> Vec<&String> {
+        match self {
+            ASN1Type::Choice(c) => c
+                .options
+                .iter()
+                .flat_map(|o| o.ty.components_of_references())
+                .collect(),
+            ASN1Type::Set(s) | ASN1Type::Sequence(s) => s
+                .components_of
+                .iter()
+                .chain(
+                    s.members
+                        .iter()
+                        .flat_map(|m| m.ty.components_of_references()),
+                )
+                .collect(),
+            ASN1Type::SequenceOf(so) | ASN1Type::SetOf(so) => {
+                so.element_type.components_of_references()
+            }
+            _ => vec![],
+        }
+    }
+
     pub fn link_components_of_notation(
         &mut self,
         tlds: &BTreeMap<String, ToplevelDefinition>,
